@@ -48,6 +48,8 @@ pub fn scenario(r: &mut Report, p: &Params) {
     let plans = [IpPlan::Public, IpPlan::Private, IpPlan::Mixed, IpPlan::PublicSecure];
     let case = case_json(p);
     let total = p.servers + p.clients;
+    let big = total > 20;
+    let mut prev_tables: HashMap<SocketAddrV4, (u64, HashSet<SocketAddrV4>)> = HashMap::new();
     let mut slots: Vec<Slot> = vec![];
     let mut boot = SocketAddrV4::new(Ipv4Addr::UNSPECIFIED, 0);
     for i in 0..total {
@@ -75,7 +77,7 @@ pub fn scenario(r: &mut Report, p: &Params) {
             let at = if rng.chance(1, 3) {
                 // at a maintenance boundary +- one tick
                 let m = (1 + rng.below((p.hours_x10 * 6 / 5).max(1))) * 5 * MIN;
-                t0 + m.min(end - t0 - 45 * MIN).max(MIN) + *rng.pick(&[0u64, 500 * MS, SEC]) - 500 * MS
+                t0 + m.min((end - t0).saturating_sub(45 * MIN)).max(MIN) + *rng.pick(&[0u64, 500 * MS, SEC]) - 500 * MS
             } else {
                 t0 + rng.below((end - t0).saturating_sub(45 * MIN).max(MIN))
             };
@@ -92,6 +94,7 @@ pub fn scenario(r: &mut Report, p: &Params) {
     let mut trace_pos = 0usize;
     let mut counters = (0u64, 0u64, 0u64, 0u64, 0u64); // ping requests, refresh find_nodes, evictions seen, relearned, samples
     let mut restart_pending: Vec<(u64, usize)> = vec![];
+    let mut recent_checks = (0u64, 0u64); // (x, peer) pairs demanded present: small networks, big networks
     let mut next_sample = t0 + 30 * SEC;
     let mut violations_here = 0;
     while w.now() < end && violations_here < 3 {
@@ -203,7 +206,13 @@ pub fn scenario(r: &mut Report, p: &Params) {
                 if *t < slots[*i].started_at {
                     continue;
                 }
-                if alive_addrs.contains(p_addr) && *p_addr != x && s_now - *t <= 14 * MIN && !tb.contains(p_addr) {
+                // with more than 20 peers bucket capacity binds: a peer may never have been admitted, but one
+                // that was listed at the previous sample and keeps answering is never the stale head to evict
+                let admitted = !big || prev_tables.get(&x).map(|pt| pt.0 >= slots[*i].started_at && pt.1.contains(p_addr)).unwrap_or(false);
+                if admitted && alive_addrs.contains(p_addr) && *p_addr != x && s_now - *t <= 14 * MIN {
+                    if big { recent_checks.1 += 1 } else { recent_checks.0 += 1 }
+                }
+                if admitted && alive_addrs.contains(p_addr) && *p_addr != x && s_now - *t <= 14 * MIN && !tb.contains(p_addr) {
                     // a restarted peer answers from the same address under a new id: the old entry blocks
                     // it on insecure IPs until evicted - only steady peers are demanded here
                     let steady = slots.iter().find(|s| s.addr == *p_addr).map(|s| s.restarted_at.is_none()).unwrap_or(true);
@@ -230,6 +239,9 @@ pub fn scenario(r: &mut Report, p: &Params) {
                         counters.2 += 1;
                     }
                 }
+            }
+            if big {
+                prev_tables.insert(x, (s_now, tb.clone()));
             }
             // (d) never empty for two consecutive samples while the first node (bootstrap) is reachable
             if tb.is_empty() && *i != 0 && slots[0].node.is_some() {
@@ -294,6 +306,11 @@ pub fn scenario(r: &mut Report, p: &Params) {
     r.add("dead_peer_checks_passed", counters.2);
     r.add("relearned_after_restart", counters.3);
     r.add("samples", counters.4);
+    r.add("recent_answerer_present_checks", recent_checks.0);
+    r.add("recent_answerer_present_checks_full_buckets", recent_checks.1);
+    if big {
+        r.count("big_timelines");
+    }
     r.add("virtual_minutes", (w.now() - t0) / MIN);
     if counters.0 > 0 && counters.1 > 0 && (w.now() - t0) >= 16 * MIN {
         r.nontrivial(mix(p.seed, w.order_hash()));
@@ -389,6 +406,22 @@ pub fn run(a: &Args) -> Report {
         let s = rng.u64();
         super::guarded(&mut r, json!({"class":"blackout","seed":s.to_string()}), |r| blackout_scenario(r, s));
         r.count("blackout_scenarios");
+    }
+    // networks in which buckets fill up (capacity binds): private addresses or BEP42 ids from the start, so
+    // that no re-key re-buckets a full table
+    let bigs: Vec<(usize, usize, u64)> = if a.quick() {
+        match a.shard {
+            0 => vec![(45, 1, 5)],
+            1 => vec![(65, 3, 5)],
+            _ => vec![],
+        }
+    } else {
+        vec![(45 + (a.shard as usize % 4) * 10, 1, 12), (50 + (a.shard as usize % 3) * 15, 3, 20)]
+    };
+    for (servers, plan, hours_x10) in bigs {
+        let p = Params { seed: rng.u64(), servers, clients: 0, plan, hours_x10, churn: rng.usize(2), api_lookups: true };
+        super::guarded(&mut r, case_json(&p), |r| scenario(r, &p));
+        r.count("timelines");
     }
     for _ in 0..n {
         let p = Params {
